@@ -32,10 +32,16 @@ def run(ck, ctx):
                      "on every path and the ingest stores the (merged) value on every path - no early return for a delta that 'looks "
                      "redundant' (own replica id, stamp below the clock, tombstone for an unknown key): after a restart every recovered "
                      "delta is own-origin and the clock is rebuilt in replay order (shared with C06 R06.3 / C08 R08.5)")
+    ck.rule("R11.8", "the WAL part of recovery returns every intact entry: entries are yielded only after length and CRC validation, a file "
+                     "ends at its first undecodable entry and an unreadable file is skipped, not fatal (shared with C10 R10.1 / R10.3)")
     for cfg in ctx.configs:
         prog = ctx.prog(cfg)
         ck.configs.append(cfg)
         ck.fn_count += len(prog.fns)
+        from . import c10 as _c10
+        from .core import Alias as _Alias2
+        _c10._r101(_Alias2(ck, "R10.1", "R11.8", skip=("R10.2",)), prog, cfg)
+        _c10._r103(_Alias2(ck, "R10.3", "R11.8"), prog, cfg)
         from . import c06, c08
         from .core import Alias
         c06._r063(Alias(ck, "R06.3", "R11.7"), prog, cfg)
